@@ -89,11 +89,37 @@ func Bool(b bool) *Term {
 	return tFalse
 }
 
+// small constants are preallocated (lock-free fast path)
+var smallConst [4][1024]*Term
+
+func init() {
+	for i, w := range []uint8{8, 16, 32, 64} {
+		for v := 0; v < 1024; v++ {
+			if w == 8 && v > 255 {
+				break
+			}
+			smallConst[i][v] = &Term{Op: OConst, W: w, V: uint64(v)}
+		}
+	}
+}
+
 func Const(w uint8, v uint64) *Term {
 	if w == 0 {
 		return Bool(v&1 == 1)
 	}
 	v &= mask(w)
+	if v < 1024 {
+		switch w {
+		case 8:
+			return smallConst[0][v]
+		case 16:
+			return smallConst[1][v]
+		case 32:
+			return smallConst[2][v]
+		case 64:
+			return smallConst[3][v]
+		}
+	}
 	return mk(Term{Op: OConst, W: w, V: v})
 }
 
